@@ -654,6 +654,10 @@ def history_strategy():
         opts = [st.none(), st.none(), st.just('start')]
         if items:
             opts += [st.sampled_from(items).map(list)] * 3
+            # items whose name was already used by an earlier item of another kind ('plus': def.ax, then def.ind)
+            twins = [it for i, it in enumerate(items) if any(x[1] == it[1] and x[0] != it[0] for x in items[:i])]
+            if twins:
+                opts.append(st.sampled_from(twins).map(list))
         return st.one_of(*opts)
 
     @st.composite
@@ -670,7 +674,7 @@ def history_strategy():
             ty, nm = draw(st.sampled_from(items))
             for alt in ('thm', 'thm.ax', 'def', 'header'):
                 if alt != ty and [alt, nm] not in items:
-                    cands.append([alt, nm])        # right name, wrong kind
+                    cands += [[alt, nm]] * 3       # right name, wrong kind
                     break
             if nm and len(nm) > 1 and all(x[1] != nm[:-1] for x in items):
                 cands.append([ty, nm[:-1]])       # proper prefix of a name
@@ -733,7 +737,8 @@ def history_strategy():
         if shape == 'plain':
             ops = pre + [draw(plain_op)]
         elif shape == 'recovery':
-            ops = pre + [draw(bogus_op(draw(st.sampled_from([target, None]))))] + draw(short)[:1]
+            # the failing load hits the target or one of its imports, so that whatever it leaves behind matters
+            ops = pre + [draw(bogus_op(draw(st.sampled_from(closure(target)[-4:] + [target]))))] + draw(short)[:1]
         elif shape == 'file':
             ops = pre[:1] + draw(file_block(target)) + draw(st.lists(st.one_of(meta_op, load_op()), max_size=1))
         elif shape == 'cycle':
